@@ -128,6 +128,39 @@ Definition dirname (cs : path) : path :=
   | None => []
   end.
 
+(* os.path.normpath on the components of a RELATIVE path: "" and "." vanish, ".." removes the previous
+   component unless there is none (or it is itself ".."), where it stays; nothing left = "." *)
+Fixpoint normrel_aux (acc cs : path) : path :=
+  match cs with
+  | [] => rev acc
+  | c :: cs' =>
+      if skipc c then normrel_aux acc cs'
+      else if updir c then
+        match acc with
+        | [] => normrel_aux [c] cs'
+        | a :: acc' => if updir a then normrel_aux (c :: acc) cs' else normrel_aux acc' cs'
+        end
+      else normrel_aux (c :: acc) cs'
+  end.
+Definition normrel (cs : path) : path :=
+  match normrel_aux [] cs with [] => [s_dot] | r => r end.
+
+(* os.path.normpath on a raw string (an absolute path keeps one leading separator; ".." at the root vanishes) *)
+Fixpoint absnorm_aux (acc cs : path) : path :=
+  match cs with
+  | [] => rev acc
+  | c :: cs' =>
+      if skipc c then absnorm_aux acc cs'
+      else if updir c then absnorm_aux (tl acc) cs'
+      else absnorm_aux (c :: acc) cs'
+  end.
+
+Definition normpath_str (s : str) : str :=
+  let cs := split_sep s in
+  if is_abs cs || (match s with [x] => N.eqb x SEP | _ => false end)
+  then SEP :: join_sep (absnorm_aux [] cs)
+  else join_sep (normrel cs).
+
 (* os.path.join(p, "job") on the raw string *)
 Definition join_leaf (p : str) : str :=
   match split_last p with
@@ -450,7 +483,7 @@ Definition keys_of (lk : links) : list path := map (fun e => split_sep (fst e)) 
 Record analysis := { a_obsolete : list path; a_update : list path; a_new : list path }.
 
 Definition analyze_view (hint : list path) (w : node) (cwd prefix : path) (lk : links) : analysis :=
-  let existing := rev (pnodup (rev (map (fun d => d ++ [s_job]) (find_all_links w cwd prefix)))) in
+  let existing := rev (pnodup (rev (map (fun d => normrel (d ++ [s_job])) (find_all_links w cwd prefix)))) in
   let ks := keys_of lk in
   let tree := fold_left (fun t k => color_path k t) ks (build_tree existing) in
   let dead := filter (fun b => negb (is_nil b)) (find_dead_branches tree []) in
@@ -522,7 +555,7 @@ Definition update_view (hint : list path) (s : st) (cwd prefix : path) (lk : lin
 (* ------------------------------------------------------------------ create_linked_view *)
 Record job := {
   j_dir : path;                 (* job.path, absolute, as components from the root *)
-  j_items : list str;           (* top level keys and the top level values that are str *)
+  j_items : list str;           (* dotted keys and str values at every nesting level (9779bb0) *)
   j_pf : result str             (* path_function(job): the shared path function, an oracle *)
 }.
 
@@ -541,19 +574,26 @@ Fixpoint proper_prefixes (tokens : path) (acc : path) : list path :=
   | c :: ts => (acc ++ [c]) :: proper_prefixes ts (acc ++ [c])
   end.
 
-Fixpoint check_structure (check : list path) (ks : list path) : bool :=
-  match ks with
-  | [] => true
-  | k :: ks' => if path_mem k check then false
-                else check_structure (proper_prefixes k [] ++ check) ks'
-  end.
+(* fc0e7cc: all nodes are collected first, then every leaf is tested *)
+Definition all_nodes (ks : list path) : list path := flat_map (fun k => proper_prefixes k []) ks.
+Definition check_structure (ks : list path) : bool :=
+  forallb (fun k => negb (path_mem k (all_nodes ks))) ks.
+
+Definition starts_with (p s : str) : bool := str_prefix p s.
+Definition leaves_view (k : str) : bool :=
+  (match k with x :: _ => N.eqb x SEP | [] => false end)          (* os.path.isabs *)
+  || str_eqb k s_dotdot || starts_with (s_dotdot ++ [SEP]) k.
 
 Fixpoint build_links (js : list job) (acc : links) : result links :=
   match js with
   | [] => Ok acc
   | j :: js' => match j_pf j with
                 | Err e => Err e
-                | Ok p => build_links js' (aset (join_leaf p) (j_dir j) acc)
+                | Ok p =>
+                    let k := normpath_str (join_leaf p) in
+                    if (match alookup k acc with Some _ => true | None => false end) || leaves_view k
+                    then Err ERuntimeError
+                    else build_links js' (aset k (j_dir j) acc)
                 end
   end.
 
@@ -575,7 +615,7 @@ Definition create_linked_view (hint : list path) (s : st) (c : call) : result li
   match make_links c with
   | Err e => (Err e, s)
   | Ok lk =>
-      if negb (check_structure [] (keys_of lk)) then (Err ERuntimeError, s)
+      if negb (check_structure (keys_of lk)) then (Err ERuntimeError, s)
       else match update_view hint s (c_cwd c) (c_prefix c) lk with
            | (s', None) => (Ok lk, s')
            | (s', Some _) => (Err EOSError, s')
